@@ -77,8 +77,10 @@ def instances(tier):
         crop_pats = [[a] * N for a in levels] + [[1.5] + [0.0] * (N - 1), [0.0] * (N - 1) + [1.5]]
         meat_pats = [[0.0] * N, [0.3] * N, [0.0] * (N - 1) + [1.2], [1.2] + [0.0] * (N - 1)]
         for stock, crops, meat, scp, cs, const_h, sw, store, fb, waste in itertools.product(
-                levels, crop_pats, meat_pats, (None, 0.3), (None, 0.2) if tier == "thorough" else (None,), (0.0, 0.3),
-                (False, True), (True, False), ((0.0, 0.0), (0.1, 0.05)), (0.0, 20.0) if tier == "thorough" else (20.0,)):
+                levels, crop_pats, meat_pats, (None, 0.3, 0.9), (None, 0.2, 0.6) if tier == "thorough" else (None,), (0.0, 0.3),
+                (False, True), (True, False), ((0.0, 0.0), (0.1, 0.05), (0.05, 0.2)), (0.0, 20.0) if tier == "thorough" else (20.0,)):
+            # SCP / sugar both below and far above what people may eat of them (the surplus must go to feed or biofuel, where the
+            # per-use caps bind); charges with feed above biofuel and biofuel above feed
             yield dict(N=N, need=1000.0, stock=stock, crops=crops, meat=meat, scp=scp, cs=cs, const_h=const_h, seaweed=sw, store=store,
                        feed=fb[0], biofuel=fb[1], waste=waste)
 
